@@ -208,6 +208,7 @@ func checkOrbitFamilyCase(c orbitFamilyCase, rec *Rec) error {
 				return fmt.Errorf("%s: the %d generators generate a group of order %v, |Aut| = %v", what, len(gens), order, oc.order)
 			}
 		}
+		scribbleCanonResult(perm, orbits, gens)
 	}
 	return nil
 }
